@@ -327,6 +327,10 @@ def run(repo, rep, tier):
             raise AnalysisError(rname + ' vanished')
         r2.sites += 1
         r2.functions.add(f.fq)
+        # judged with private helpers inlined (keeping the self-recursive
+        # call for list arguments)
+        from ..inline import Flat as _FlatR
+        f = _FlatR(f, keep=(rname,), aliases=False)
         cfg = CFG(f.node)
         dels = [s for s in cfg.stmts() if isinstance(s, (ast.Expr,
                                                           ast.Assign)) and
